@@ -105,8 +105,10 @@ class World(object):
         self.clock = Clock()
         self.expiry = expiry
         self.explicit = explicit_secret
-        exp = {'session': SESSION, 'never': NEVER, 'numeric': EXPIRY}[expiry]
-        kw = {'expiry': exp}
+        if expiry == 'numeric-deprecated':
+            kw = {'data_expiry': EXPIRY}        # the deprecated spelling of expiry=
+        else:
+            kw = {'expiry': {'session': SESSION, 'never': NEVER, 'numeric': EXPIRY}[expiry]}
         if custom_names:
             kw.update(arg_name='sess', cookie_name='sid')
         if explicit_secret:
@@ -126,8 +128,10 @@ class World(object):
                '        %s.pop(request.args["k"], None)\n'
                '    elif op == "clear":\n'
                '        %s.clear()\n'
+               '    elif op == "logout":\n'
+               '        %s.set_expires()\n'
                '    return RESP(JSON.dumps({"before": before, "after": dict(%s)}, sort_keys=True), status=201)\n'
-               % ((arg,) * 6))
+               % ((arg,) * 7))
         ns = {'JSON': json, 'RESP': Response}
         exec(src, ns)
         self.app = Application([('/', ns['ep'])], middlewares=[self.mw])
@@ -168,7 +172,7 @@ def initial_state():
 
 CLIENT_OPS = {
     0: [('set', 'a', 0), ('set', 'a', 1), ('set', u'\xe9', 2), ('set', 'a', 3), ('set', 'b', 4), ('delete', 'a', None),
-        ('read', None, None), ('clear', None, None)],
+        ('read', None, None), ('clear', None, None), ('logout', None, None)],
     1: [('set', 'a', 0), ('set', u'\xe9', 2), ('read', None, None)],
 }
 TAMPERS = ['flip-mac', 'flip-mac-lowbits', 'flip-key', 'flip-payload', 'truncate', 'extend-item', 'extend-amp',
@@ -276,7 +280,9 @@ def successors(w, state):
             elif op == 'clear':
                 after = {}
             if newc is not None:
-                nexp = (w.clock.now + EXPIRY) if w.expiry == 'numeric' else None
+                nexp = (w.clock.now + EXPIRY) if w.expiry.startswith('numeric') else None
+                if op == 'logout':
+                    nexp = 123456          # set_expires(): a moment long past
                 nc = (newc, True, json.dumps(after, sort_keys=True), nexp)
             else:
                 # no Set-Cookie: the client keeps what it has; the stored data must then be unchanged
@@ -300,7 +306,7 @@ def successors(w, state):
             continue
         flag = 'foreign' if (kind == 'foreign-instance' and not w.explicit) else False
         yield ['client0', 'tamper', kind], ((q, flag, '{}', None), clients[1], off), None
-    if w.expiry == 'numeric':
+    if w.expiry.startswith('numeric'):
         for adv in ADVANCES:
             if off + adv <= 3 * (EXPIRY + 1):
                 yield ['clock', 'advance', adv], (c0, c1, off + adv), None
@@ -349,7 +355,8 @@ def explore(acc, cfg, depth, shard_i, nshards):
 
 
 def configs():
-    return [(e, c, x) for e in ('session', 'never', 'numeric') for c in (False, True) for x in (True, False)]
+    return [(e, c, x) for e in ('session', 'never', 'numeric') for c in (False, True) for x in (True, False)] + \
+           [('numeric-deprecated', False, True)]
 
 
 def nshards(tier):
